@@ -224,9 +224,11 @@ def build_temperature(tspec, pmin, pmax, nlayers=None):
         d = (np.log10(pmax) - np.log10(pmin)) / max(nlayers or 1, 1) / 2.0
         hi, lo = np.log10(pmax) - d, np.log10(pmin) + d
         lp = [hi + f * (lo - hi) for f in tspec['frac_points']]
-        return NPoint(T_surface=tspec['T_surface'], T_top=tspec['T_top'],
-                      temperature_points=list(tspec['temperature_points']),
-                      pressure_points=[float(10 ** v) for v in lp],
+        tpts, ppts = list(tspec['temperature_points']), [float(10 ** v) for v in lp]
+        if tspec.get('integer_nodes'):
+            # node lists typed as whole numbers (Python ints)
+            tpts, ppts = [int(round(v)) for v in tpts], [int(round(v)) for v in ppts]
+        return NPoint(T_surface=tspec['T_surface'], T_top=tspec['T_top'], temperature_points=tpts, pressure_points=ppts,
                       smoothing_window=tspec['smoothing_window'])
     if k == 'guillot':
         return Guillot2010(T_irr=tspec['T_irr'], kappa_irr=tspec['kappa_irr'], kappa_v1=tspec['kappa_v1'],
